@@ -264,6 +264,7 @@ func (ex *Exec) havocCall(st *State, fr *Frame, ins ssa.Instruction, name string
 		res = ex.freshResults(sig, sanitize(shortName(name)))
 		if !strings.HasPrefix(name, "dyn:") && !strings.Contains(name, modulePrefix) {
 			markLib(res)
+			markOrigin(res, moduleOf(name))
 		}
 	}
 	ex.setResult(st, fr, dst, res)
@@ -573,7 +574,10 @@ func (ex *Exec) builtin(st *State, fr *Frame, ins ssa.Instruction, b *ssa.Builti
 			ex.setResult(st, fr, dst, ex.lenOf(st, args[0], c.Args[0].Type()))
 		}
 	case "append":
-		ex.setResult(st, fr, dst, ex.appendOp(st, args[0], args[1], c.Args[0].Type()))
+		res := ex.appendOp(st, args[0], args[1], c.Args[0].Type())
+		ex.setResult(st, fr, dst, res)
+		// "slice.append": a0 = the slice appended to, a1 = the appended elements (a slice), ar0 = the result
+		ex.event(st, &Event{Callee: "slice.append", Args: args, Results: []Value{res}, Instr: ins, Fn: fr.Fn, Kind: "append"})
 	case "copy":
 		ex.setResult(st, fr, dst, ex.copyOp(st, args[0], args[1]))
 	case "delete":
@@ -738,6 +742,37 @@ func markLib(v Value) {
 	case *TupleV:
 		for _, e := range x.E {
 			markLib(e)
+		}
+	}
+}
+
+// moduleOf: the module-level prefix (host/owner/repo, or the first element for the standard library) of a callee name.
+func moduleOf(name string) string {
+	n := strings.TrimLeft(name, "(*")
+	parts := strings.Split(n, "/")
+	if len(parts) >= 3 && strings.Contains(parts[0], ".") {
+		last := parts[2]
+		if i := strings.IndexAny(last, ".)"); i >= 0 {
+			last = last[:i]
+		}
+		return parts[0] + "/" + parts[1] + "/" + last
+	}
+	first := parts[0]
+	if i := strings.IndexAny(first, ".)"); i >= 0 {
+		first = first[:i]
+	}
+	return first
+}
+
+func markOrigin(v Value, origin string) {
+	switch x := v.(type) {
+	case *IfaceV:
+		if x.Lib && x.Origin == "" {
+			x.Origin = origin
+		}
+	case *TupleV:
+		for _, e := range x.E {
+			markOrigin(e, origin)
 		}
 	}
 }
